@@ -3,6 +3,7 @@ package rules
 import (
 	"fmt"
 	"go/token"
+	"go/types"
 	"strings"
 
 	"golang.org/x/tools/go/ssa"
@@ -171,7 +172,30 @@ func checkMedian3(c *core.Ctx, handlers []handlerRef) {
 					continue
 				}
 				cal := call.Call.StaticCallee()
-				if cal == nil || !strings.HasPrefix(strings.ToLower(cal.Name()), "median3") || len(cal.Params) != 3 || seen[cal] {
+				if cal == nil || !strings.HasPrefix(strings.ToLower(cal.Name()), "median3") || len(cal.Params) != 3 {
+					continue
+				}
+				// the order the helper compares in is the order of the mnemonic's type: a signed
+				// median taken over the unsigned reinterpretation ranks every negative source above
+				// every non-negative one
+				wantSigned, known := false, false
+				for _, n := range h.insts {
+					switch {
+					case strings.Contains(baseMnemonic(n), "_i32"), strings.Contains(baseMnemonic(n), "_i16"):
+						wantSigned, known = true, true
+					case strings.Contains(baseMnemonic(n), "_u32"), strings.Contains(baseMnemonic(n), "_u16"):
+						wantSigned, known = false, true
+					}
+				}
+				if bt, isB := cal.Params[0].Type().Underlying().(*types.Basic); isB && known && bt.Info()&types.IsInteger != 0 {
+					st.Instances++
+					gotSigned := bt.Info()&types.IsUnsigned == 0
+					st.Ob(gotSigned == wantSigned)
+					if gotSigned != wantSigned {
+						c.ReportAt("R03.36", root, call.Pos(), "median-signedness:"+h.name, core.FuncName(root)+" ("+strings.Join(h.insts, ", ")+") takes the median with "+core.FuncName(cal)+", which compares "+bt.Name()+" values: the sources are ordered as the wrong kind of integer (v_med3_i32 5, -128, 127 returns 127: as unsigned numbers -128 is the largest)")
+					}
+				}
+				if seen[cal] {
 					continue
 				}
 				seen[cal] = true
